@@ -515,6 +515,18 @@ def build_graph(rng, kind, nv=None, landmarks=True, noise=0.02, pert=0.05, info_
     for i in range(1, nv):
         truth.append(truth[-1] + rand_pose(1.0) if kind in ('SE2', 'SE3') else P(np.asarray(truth[-1]) + np.array([rng.gauss(0, 1) for _ in range(d)])))
     verts = [Vertex(i, (truth[i] + small() * (pert / max(noise, 1e-12))) if pert else truth[i].copy()) for i in range(nv)]
+    manhattan = kind in ('SE2', 'SE3') and rng.random() < 0.15
+    if manhattan:
+        # a Manhattan world: every heading is EXACTLY axis-aligned (angle exactly 0.0 / quarter turns; identity or axis-aligned quaternions), the
+        # sensors are mounted without rotation, only the positions of the initial guess are off
+        if kind == 'SE2':
+            truth = [PoseSE2([rng.gauss(0, 3.0), rng.gauss(0, 3.0)], rng.choice([0.0, 0.0, math.pi / 2, -math.pi / 2, math.pi])) for _ in range(nv)]
+            verts = [Vertex(i, PoseSE2([float(truth[i][0]) + rng.gauss(0, pert), float(truth[i][1]) + rng.gauss(0, pert)], float(truth[i][2]))) for i in range(nv)]
+        else:
+            h_ = math.sqrt(0.5)
+            qs = [[0.0, 0.0, 0.0, 1.0], [0.0, 0.0, 0.0, 1.0], [0.0, 0.0, h_, h_], [h_, 0.0, 0.0, h_], [0.0, 1.0, 0.0, 0.0]]
+            truth = [PoseSE3([rng.gauss(0, 3.0) for _ in range(3)], rng.choice(qs)) for _ in range(nv)]
+            verts = [Vertex(i, PoseSE3([float(x) + rng.gauss(0, pert) for x in np.asarray(truth[i])[:3]], [float(x) for x in np.asarray(truth[i])[3:]])) for i in range(nv)]
     edges = []
 
     def info(n):
@@ -540,7 +552,9 @@ def build_graph(rng, kind, nv=None, landmarks=True, noise=0.02, pert=0.05, info_
             lms.append(lp)
             verts.append(Vertex(lid, PP(np.asarray(lp) + (np.array([rng.gauss(0, pert) for _ in range(ce.DIM[pk])]) if pert else 0.0))))
             for a in rng.sample(range(nv), min(nv, rng.randint(2, 3))):
-                if kind == 'SE2':
+                if manhattan:
+                    off = PoseSE2.identity() if kind == 'SE2' else PoseSE3.identity()
+                elif kind == 'SE2':
                     off = PoseSE2.identity()   # EDGE_SE2_XY semantics; any offset is allowed for the in-memory graph
                     off = PoseSE2([rng.gauss(0, .3), rng.gauss(0, .3)], rng.uniform(-1, 1))
                 elif kind == 'SE3':
